@@ -146,13 +146,13 @@ pub fn run(ctx: &mut Ctx) {
     // a leaf that looks like an interior node preimage (0x01 ‖ 64 bytes): domain separation
     explicit(ctx, vec![{ let mut v = vec![1u8]; v.extend_from_slice(&[7u8; 64]); v }, vec![7u8; 32]]);
     // dense counts, random leaf contents incl. empty leaves
-    let dense = ctx.n(200, 1200) as usize;
+    let dense = ctx.n(300, 1200) as usize;
     for n in 0..=dense {
         let leaves: Vec<Vec<u8>> = (0..n).map(|_| rand_leaf(ctx)).collect();
         explicit(ctx, leaves);
     }
     // sparse: 2^k - 1, 2^k, 2^k + 1 and neighbours of other shapes
-    let maxk = if ctx.thorough() { 17 } else { 12 };
+    let maxk = if ctx.thorough() { 17 } else { 13 };
     for k in 8..=maxk {
         for d in [-1i64, 0, 1] {
             let n = ((1i64 << k) + d) as u64;
